@@ -2,6 +2,8 @@
 from __future__ import annotations
 
 import ast
+import os
+import sys
 import copy
 
 import z3
@@ -1625,6 +1627,8 @@ class Exec(Engine):
             for l in list(active):
                 status, _ = self.check_valid(st, init_forms[l])
                 if status != 'discharged':
+                    if os.environ.get('PYVC_HOUDINI'):
+                        print(f'[houdini {loop_id}] dropped at init ({status}): {l[:160]}', file=sys.stderr)
                     active.remove(l)
             changed = True
             while changed:
@@ -1662,8 +1666,10 @@ class Exec(Engine):
                             active.remove(l)
                             changed = True
                             continue
-                        status, _ = self.check_valid(bo.st, f2[l])
+                        status, _m = self.check_valid(bo.st, f2[l])
                         if status != 'discharged':
+                            if os.environ.get('PYVC_HOUDINI'):
+                                print(f'[houdini {loop_id}] dropped ({status}, exit {bo.kind}): {l[:160]}\n      {_m[:600]}', file=sys.stderr)
                             active.remove(l)
                             changed = True
             self.houdini[self.hkey(loop_id, st)] = list(active)
